@@ -196,8 +196,23 @@ class Closure:
                 if best is None or s < best: best = s
         return best
 
+_fresh_ctr = [0]
+def _freshen(t, env=None):
+    """alpha-rename every binder to a globally unique non-pool name (so that substitutions cannot be captured)"""
+    env = env or {}
+    op = t[0]; sig = SIG[op]; out = [op]; i = 1; e = env
+    for kind in sig:
+        a = t[i]; i += 1
+        if kind == 's': out.append(e.get(a, a))
+        elif kind == 'b':
+            _fresh_ctr[0] += 1; nn = ('bn', _fresh_ctr[0]); e = dict(e); e[a] = nn; out.append(nn)
+        else: out.append(_freshen(a, e))
+    return tuple(out)
+
 def _subst_free(t, n, z):
-    """replace free occurrences of name n by z (z must not be captured: callers use pool names not occurring in t)"""
+    """replace free occurrences of name n by z (capture avoiding)"""
+    return _subst_free0(_freshen(t), n, z)
+def _subst_free0(t, n, z):
     op = t[0]; sig = SIG[op]; out = [op]; i = 1; shadow = False
     for kind in sig:
         a = t[i]; i += 1
@@ -205,16 +220,18 @@ def _subst_free(t, n, z):
         elif kind == 'b':
             out.append(a)
             if a == n: shadow = True
-        else: out.append(a if shadow else _subst_free(a, n, z))
+        else: out.append(a if shadow else _subst_free0(a, n, z))
     return tuple(out)
 
-def _subst_free_map(t, m, bound=frozenset()):
+def _subst_free_map(t, m):
+    return _subst_free_map0(_freshen(t), m)
+def _subst_free_map0(t, m, bound=frozenset()):
     op = t[0]; sig = SIG[op]; out = [op]; i = 1; b = bound
     for kind in sig:
         a = t[i]; i += 1
         if kind == 's': out.append(m.get(a, a) if a not in b else a)
         elif kind == 'b': out.append(a); b = b | {a}
-        else: out.append(_subst_free_map(a, m, b))
+        else: out.append(_subst_free_map0(a, m, b))
     return tuple(out)
 
 def set_partitions(n):
